@@ -816,3 +816,14 @@ def r1_10(run):
 
 
 RULES.append(("R1.10", r1_10))
+
+
+def r1_11(run):
+    """the reported flows balance only if every reported number belongs to THIS calculation: init_results_element rebinds every
+    result table to a fresh all-NaN frame on every path, so an element that takes no part in the current run (switched off, cut off)
+    cannot keep the mass flow of an earlier run -- shared with C05 R5.8."""
+    from .c05 import r5_8
+    r5_8(run)
+
+
+RULES.append(("R1.11", r1_11))
